@@ -10,6 +10,8 @@ import (
 	"io"
 	"os"
 	"strings"
+
+	"verif/harness/tagged"
 )
 
 // ---------------------------------------------------------------------------
@@ -115,6 +117,32 @@ func cmdXmlEvents(args []string) {
 	for {
 		line, rerr := rd.ReadBytes('\n')
 		if len(line) > 1 {
+			var hd struct {
+				Op string `json:"op"`
+			}
+			json.Unmarshal(line, &hd)
+			if hd.Op == "encx" {
+				if e, reason := convertEncX(line, seen); reason != "" {
+					a.Add("dropped:encx:"+reason, 1)
+				} else {
+					b, _ := json.Marshal(e)
+					w.Write(b)
+					w.WriteByte('\n')
+					a.Cases++
+					a.Add("kept:encx", 1)
+					nontriv++
+				}
+				if rerr != nil {
+					break
+				}
+				continue
+			}
+			if hd.Op != "decx" {
+				if rerr != nil {
+					break
+				}
+				continue // (events of other families in a shared log)
+			}
 			var ev struct {
 				Cast bool                   `json:"cast"`
 				Doc  string                 `json:"doc"`
@@ -140,7 +168,7 @@ func cmdXmlEvents(args []string) {
 					reason = "cast" // the cast chain is C14's; the decode specification models default casts of a few texts only
 				case o["xmpp"] == true:
 					reason = "xmpp"
-				case len(apfx) > 1 || len(kpfx) != 1 || apfx == kpfx:
+				case len(kpfx) != 1 || apfx == kpfx: // (attribute prefixes of any length are in the specification)
 					reason = "prefix-shape"
 				case !asciiPrintable(string(ev.R)):
 					reason = "non-ascii"
@@ -180,6 +208,76 @@ func cmdXmlEvents(args []string) {
 	w.Flush()
 	out.Close()
 	writeSummary(a, args[2])
+}
+
+// convertEncX: a Map.Xml call observed by the wrapper of harness/repotrace -> event encx of Trace_Xml.tla
+func convertEncX(line []byte, seen map[string]bool) (map[string]interface{}, string) {
+	var ev struct {
+		Pre  *tagged.TV             `json:"pre"`
+		Tags []string               `json:"tags"`
+		X    string                 `json:"x"`
+		Err  bool                   `json:"err"`
+		Opts map[string]interface{} `json:"opts"`
+	}
+	if json.Unmarshal(line, &ev) != nil || ev.Pre == nil {
+		return nil, "unparsable"
+	}
+	if !asciiPrintable(string(line)) {
+		return nil, "non-ascii"
+	}
+	var plain func(t *tagged.TV) bool
+	plain = func(t *tagged.TV) bool {
+		switch t.T {
+		case "s", "f", "b", "n":
+			return true
+		case "m":
+			for k, v := range t.KV {
+				if k == "" || !plain(v) {
+					return false
+				}
+			}
+			return true
+		case "l":
+			for _, v := range t.It {
+				if !plain(v) {
+					return false
+				}
+			}
+			return true
+		}
+		return false
+	}
+	if ev.Pre.T != "m" || !plain(ev.Pre) {
+		return nil, "value-types"
+	}
+	if len(ev.Tags) > 1 {
+		return nil, "root-tags"
+	}
+	o := ev.Opts
+	if o["checkValid"] == true {
+		return nil, "validity-check-on"
+	}
+	textK, _ := o["textK"].(string)
+	kpfx := strings.TrimSuffix(textK, "text")
+	apfx, _ := o["attrPrefix"].(string)
+	if len(kpfx) != 1 || apfx == kpfx {
+		return nil, "prefix-shape"
+	}
+	tag := ""
+	if len(ev.Tags) == 1 {
+		tag = ev.Tags[0]
+		if tag == "" {
+			return nil, "root-tags"
+		}
+	}
+	m := tagged.FromGo(ev.Pre.ToGo())
+	key := fmt.Sprint("encx", apfx, kpfx, o["escEnc"], o["goEmpty"], tag, m.Canon())
+	if seen[key] {
+		return nil, "duplicate"
+	}
+	seen[key] = true
+	return map[string]interface{}{"op": "encx", "m": m, "tag": tag, "x": ev.X, "encerr": map[bool]string{true: "err", false: "ok"}[ev.Err],
+		"o": map[string]interface{}{"apfx": apfx, "kpfx": kpfx, "esc": o["escEnc"] == true, "goempty": o["goEmpty"] == true}}, ""
 }
 
 func init() { extraCmds["xmlevents"] = cmdXmlEvents }
